@@ -8,7 +8,7 @@ from harness import c13_lib as L
 
 PROP = 'C13'
 MODEL_MODULES = ['TenpyModel.Util.J', 'TenpyModel.C13.PyList', 'TenpyModel.Gen.C13Schedule', 'TenpyModel.C13.Sweep']
-PROPS_MODULES = ['TenpyModel.C13.Props', 'TenpyModel.C13.PropsRitz']
+PROPS_MODULES = ['TenpyModel.C13.Props', 'TenpyModel.C13.PropsRitz', 'TenpyModel.C13.Props2']
 LEAN_MODULES = PROPS_MODULES
 LEVEL = 'proof'
 BUDGET = {'quick': 240, 'thorough': 2000}
